@@ -1630,8 +1630,8 @@ Proof.
   assert (A : sumf isOne (conss s) <= 1 * length (conss s)).
   { apply sumf_le. intros x. unfold isOne. destruct (cphase x) as [| | | |[]| |]; lia. }
   assert (B : match get s c with Some cs => own (calls s) (cphase cs) | None => 6 end <= 11).
-  { destruct (get s c) as [cs|]; [|lia]. unfold own, stale.
-    destruct (cphase cs) as [| | | |[]| |]; cbn; try destruct (Nat.eqb _ _); lia. }
+  { destruct (get s c) as [cs|]; [|lia]. unfold own.
+    destruct (cphase cs) as [| | | |[]| |]; cbn [rank soa]; unfold stale; try destruct (Nat.eqb _ _); lia. }
   destruct (permit s); cbn [b2n]; lia.
 Qed.
 
@@ -1655,3 +1655,382 @@ Proof.
     + destruct (ckind cs); eauto.
   - right. right. split; auto. cbn [step]. unfold actor_exit. rewrite Hd, Ex. cbn. eauto.
 Qed.
+
+(* ------------------------------------------------------------------ *)
+(* F. Termination of internal activity                                 *)
+
+(* pending wake-ups held by a consumer: woken and not yet run, or its Init
+   signal is older than the last notify_waiters *)
+Definition ctk (calls : nat) (p : phase) : nat :=
+  match p with
+  | PParked NOne | PParked NAll => 1
+  | PU1 sn _ | PU2 sn _ | PU3 sn => stale calls sn
+  | _ => 0
+  end.
+
+Definition cw (calls : nat) (cs : cons) : nat := rank (cphase cs) + 6 * ctk calls (cphase cs).
+
+Definition rw (r : req) : nat :=
+  match r with
+  | RPost n => 6 * n + 7
+  | RPull _ _ => 1
+  | RNack j => 6 * j + 7
+  | RAck _ => 1
+  | RDelete => 1
+  end.
+
+Fixpoint mw (l : list req) : nat := match l with [] => 0 | r :: t => rw r + mw t end.
+
+Lemma mw_app l1 l2 : mw (l1 ++ l2) = mw l1 + mw l2.
+Proof. induction l1; cbn [mw app]; lia. Qed.
+
+(* Every pending notification (permit, woken consumer, queued notifying
+   request, message in the backlog) pays for one more round of a consumer. *)
+Definition Phi (s : state) : nat :=
+  sumf (cw (calls s)) (conss s) + 6 * b2n (permit s) + mw (mailbox s) + 6 * backlog s +
+  (if exited s then 0 else 1).
+
+Ltac ph := unfold Phi;
+  cbn [permit waiters calls backlog leased deleted exited mailbox conss
+       set_permit set_waiters set_calls set_backlog set_leased set_deleted
+       set_exited set_mailbox set_conss setc].
+
+Lemma Phi_setc s c f cs :
+  get s c = Some cs -> Phi (setc c f s) + cw (calls s) cs = Phi s + cw (calls s) (f cs).
+Proof. intros G. ph. pose proof (sumf_upd (cw (calls s)) (conss s) c f cs G). lia. Qed.
+
+Lemma Phi_setc_inv s c f : (forall x, cw (calls s) (f x) = cw (calls s) x) -> Phi (setc c f s) = Phi s.
+Proof.
+  intros Hf. destruct (get s c) as [cs|] eqn:G.
+  - pose proof (Phi_setc s c f cs G). rewrite Hf in H. lia.
+  - ph. rewrite sumf_upd_none; auto.
+Qed.
+
+Lemma cw_wake_one calls cs : cw calls (wake NOne cs) <= cw calls cs + 6.
+Proof.
+  unfold wake, cw. destruct (cphase cs) as [| | | |[]| |] eqn:E; cbn [cphase with_phase]; rewrite ?E; cbn [rank ctk]; lia.
+Qed.
+
+Lemma cw_deliver calls r cs : cw calls (deliver_f r cs) = cw calls cs.
+Proof.
+  unfold deliver_f, cw. destruct (cphase cs) as [| |sn [|]| | | |] eqn:E; cbn [cphase with_phase]; rewrite ?E; reflexivity.
+Qed.
+
+Lemma Phi_notify_one s : Phi (notify_one s) <= Phi s + 6.
+Proof.
+  unfold notify_one. destruct (waiters s) as [|w ws].
+  - ph. destruct (permit s); cbn [b2n]; lia.
+  - change (Phi (set_waiters ws (setc w (wake NOne) s))) with (Phi (setc w (wake NOne) s)).
+    destruct (get s w) as [cs|] eqn:G.
+    + pose proof (Phi_setc s w (wake NOne) cs G). pose proof (cw_wake_one (calls s) cs). lia.
+    + ph. rewrite sumf_upd_none; auto. lia.
+Qed.
+
+Lemma Phi_deliver s c r : Phi (deliver c r s) = Phi s.
+Proof. apply Phi_setc_inv. intros x. apply cw_deliver. Qed.
+
+Lemma Phi_close l : forall s, Phi (fold_left close_req l s) = Phi s.
+Proof.
+  induction l as [|r l IH]; intros s; cbn [fold_left]; auto. rewrite IH.
+  destruct r; cbn [close_req]; auto. apply Phi_deliver.
+Qed.
+
+Lemma Phi_finish s c cs f :
+  get s c = Some cs -> alive (cphase cs) = true -> alive (cphase (f cs)) = false ->
+  Phi (finish (cphase cs) c f s) < Phi s.
+Proof.
+  intros G Al Hf. pose proof (Phi_setc s c f cs G) as E. pose proof (rank_alive _ Al) as Rk.
+  assert (Z : cw (calls s) (f cs) = 0) by (unfold cw; destruct (cphase (f cs)); cbn in *; auto; discriminate).
+  rewrite Z in E. unfold cw in E. unfold finish.
+  destruct (cphase cs) as [| | | |[]| |] eqn:Ph;
+    try (change (Phi (setc c f s) < Phi s); cbn [rank ctk] in *; lia).
+  pose proof (Phi_notify_one (setc c f s)). cbn [rank ctk] in *. lia.
+Qed.
+
+Ltac phloc G Ph :=
+  let E := fresh "E" in
+  match goal with |- Phi (setc ?c ?f ?s) < Phi ?s =>
+    pose proof (Phi_setc s c f _ G) as E; unfold cw in E; cbn [cphase with_phase add_got] in E;
+    rewrite Ph in E; cbn [rank ctk] in E; unfold stale in *; rewrite ?Nat.eqb_refl in E; try lia
+  end.
+
+(* Every internal step other than the (single) Delete turn lowers Phi. *)
+Lemma Phi_step K s l s' :
+  step K s l = Some s' -> internal l = true ->
+  (deleted s = false /\ deleted s' = true) \/ (deleted s' = deleted s /\ Phi s' < Phi s).
+Proof.
+  intros H Hi. apply step_sspec in H.
+  destruct H as [c0 m rest Ex Em Ed|r rest Ex Em Ed Ip|n rest Ex Em Ed|c0 m rest Ex Em Ed
+                |j rest Ex Em Ed|j rest Ex Em Ed|rest Ex Em Ed|Ed Ex
+                |c0 cs o G Ph|c0 cs snap o G Ph Ex|c0 cs snap o G Ph Ex L|c0 cs snap G Ph|c0 cs snap G Ph
+                |c0 cs snap k G Ph Ek|c0 cs snap k G Ph Ek|c0 cs snap G Ph Ep|c0 cs snap G Ph Ep Ec
+                |c0 cs snap G Ph Ep Ec|c0 cs n G Ph Hn|c0 cs Ed G Al Hk|r Ip Ex L|j Ex Ed|j Ex Ed|k m
+                |c0 cs G Al|c0 cs G Al Ek]; try discriminate.
+  - right. split; [reflexivity|]. rewrite Phi_deliver. ph. rewrite Em. cbn [mw rw]. lia.
+  - right. split; [reflexivity|]. ph. rewrite Em. cbn [mw]. destruct r; cbn [rw]; lia.
+  - right. split; [fr; reflexivity|].
+    eapply Nat.le_lt_trans; [apply Phi_notify_one|]. ph. rewrite Em. cbn [mw rw]. lia.
+  - right. cbv zeta. split; [destruct (Nat.ltb 0 _); fr; reflexivity|].
+    assert (E : Phi (deliver c0 (RMsgs (pull_count (backlog s) m))
+         (set_leased (leased s + pull_count (backlog s) m)
+            (set_backlog (backlog s - pull_count (backlog s) m) (set_mailbox rest s))))
+         + 1 + 6 * backlog s = Phi s + 6 * (backlog s - pull_count (backlog s) m)).
+    { rewrite Phi_deliver. ph. rewrite Em. cbn [mw rw]. lia. }
+    destruct (Nat.ltb_spec 0 (backlog s - pull_count (backlog s) m)) as [Lt|Ge].
+    + eapply Nat.le_lt_trans; [apply Phi_notify_one|].
+      assert (1 <= pull_count (backlog s) m) by (unfold pull_count; lia). lia.
+    + lia.
+  - right. split; [fr; reflexivity|]. unfold requeue.
+    cbn [leased backlog set_mailbox].
+    assert (E : Phi (set_leased (leased s - Nat.min j (leased s))
+                 (set_backlog (backlog s + Nat.min j (leased s)) (set_mailbox rest s)))
+                + 7 + 6 * j = Phi s + 6 * Nat.min j (leased s)).
+    { ph. rewrite Em. cbn [mw rw]. lia. }
+    destruct (Nat.ltb 0 _).
+    + eapply Nat.le_lt_trans; [apply Phi_notify_one|]. lia.
+    + lia.
+  - right. split; [reflexivity|]. ph. rewrite Em. cbn [mw rw]. lia.
+  - left. split; [assumption|reflexivity].
+  - right. split; [fr; reflexivity|].
+    assert (E : Phi (set_mailbox [] (set_exited true (fold_left close_req (mailbox s) s))) + 1 + mw (mailbox s)
+                = Phi (fold_left close_req (mailbox s) s)).
+    { ph. rewrite mailbox_close, exited_close, Ex. cbn [mw]. lia. }
+    rewrite Phi_close in E. lia.
+  - right. split; [reflexivity|]. phloc G Ph.
+  - right. split; [reflexivity|]. phloc G Ph.
+  - right. split; [reflexivity|].
+    assert (E0 : Phi (set_mailbox (mailbox s ++ [RPull c0 (cmax cs)]) (setc c0 (with_phase (PU2 snap None)) s))
+                 = Phi (setc c0 (with_phase (PU2 snap None)) s) + 1).
+    { ph. rewrite mw_app. cbn [mw rw]. lia. }
+    rewrite E0. pose proof (Phi_setc s c0 (with_phase (PU2 snap None)) cs G) as E.
+    unfold cw in E. cbn [cphase with_phase] in E. rewrite Ph in E. cbn [rank ctk] in E. lia.
+  - right. split; [reflexivity|]. phloc G Ph.
+  - right. split; [reflexivity|]. phloc G Ph.
+  - right. split; [reflexivity|]. phloc G Ph.
+  - right. split; [reflexivity|]. phloc G Ph.
+  - right. split; [reflexivity|].
+    assert (E0 : Phi (set_permit false (setc c0 (with_phase (PU0 true)) s)) + 6
+                 = Phi (setc c0 (with_phase (PU0 true)) s)).
+    { ph. rewrite Ep. cbn [b2n]. lia. }
+    pose proof (Phi_setc s c0 (with_phase (PU0 true)) cs G) as E.
+    unfold cw in E. cbn [cphase with_phase] in E. rewrite Ph in E. cbn [rank ctk] in E. lia.
+  - right. split; [reflexivity|]. phloc G Ph. destruct (Nat.eqb_spec snap (calls s)); [contradiction|lia].
+  - right. split; [reflexivity|].
+    change (Phi (setc c0 (with_phase (PParked NNone)) s) < Phi s). phloc G Ph.
+  - right. split; [reflexivity|]. phloc G Ph. destruct n; try contradiction; lia.
+  - right. split; [fr; reflexivity|]. apply Phi_finish; auto.
+Qed.
+
+Definition isucc (K : nat) (s' s : state) : Prop :=
+  exists l, internal l = true /\ step K s l = Some s'.
+
+Definition dflag (s : state) : nat := if deleted s then 0 else 1.
+
+(* There is no infinite sequence of internal steps: quiescence is reached
+   whenever the environment stops. *)
+Theorem internal_terminates K s : Acc (isucc K) s.
+Proof.
+  remember (dflag s) as n eqn:En. remember (Phi s) as m eqn:Em. revert m s En Em.
+  induction n as [n IHn] using lt_wf_ind. induction m as [m IHm] using lt_wf_ind.
+  intros s En Em. constructor. intros s' (l & Hi & Hs).
+  destruct (Phi_step K s l s' Hs Hi) as [[D1 D2]|[D P]].
+  - apply (IHn (dflag s')) with (m := Phi s'); auto. unfold dflag in *. rewrite D1 in En. rewrite D2. lia.
+  - apply (IHm (Phi s')); [lia| |reflexivity]. unfold dflag in *. rewrite D. assumption.
+Qed.
+
+(* While the deletion flag does not change, the number of internal steps is at most Phi. *)
+Theorem internal_run_bound K ls : forall s s',
+  forallb internal ls = true -> run K s ls = Some s' -> deleted s' = deleted s ->
+  Phi s' + length ls <= Phi s.
+Proof.
+  induction ls as [|l ls IH]; intros s s' Hi H Hd; cbn in *.
+  - injection H as <-. lia.
+  - apply andb_true_iff in Hi. destruct Hi as [Hl Hls].
+    destruct (step K s l) as [s1|] eqn:E; [|discriminate].
+    assert (D1 : deleted s1 = deleted s).
+    { destruct (deleted s) eqn:Ds.
+      - eapply step_deleted; eauto.
+      - destruct (deleted s1) eqn:Ds1; auto.
+        assert (deleted s' = true); [|congruence].
+        clear - H Ds1. revert s1 s' H Ds1. induction ls as [|x ls IHl]; intros s1 s' H D; cbn in H.
+        + injection H as <-. assumption.
+        + destruct (step K s1 x) as [s2|] eqn:E2; [|discriminate].
+          eapply IHl; eauto. eapply step_deleted; eauto. }
+    destruct (Phi_step K s l s1 E Hl) as [[A B]|[A B]]; [congruence|].
+    assert (deleted s' = deleted s1) by congruence.
+    specialize (IH s1 s' Hls H H0). lia.
+Qed.
+
+(* ------------------------------------------------------------------ *)
+(* Executable quiescence check                                         *)
+
+Lemma quiescent_of_b K s : quiescentb K s = true -> quiescent K s.
+Proof.
+  unfold quiescentb. destruct (turn s) eqn:T; [discriminate|]. destruct (actor_exit s) eqn:X; [discriminate|].
+  intros Hb l Hi. rewrite forallb_forall in Hb.
+  assert (Hc : forall c, cons_step K s c = None /\ del_exit s c = None).
+  { intros c. destruct (Nat.lt_ge_cases c (length (conss s))) as [L|L].
+    - specialize (Hb c). rewrite in_seq in Hb. specialize (Hb ltac:(lia)).
+      destruct (cons_step K s c); [discriminate|]. destruct (del_exit s c); [discriminate|]. auto.
+    - assert (G : get s c = None) by (apply nth_error_None; assumption).
+      unfold cons_step, del_exit. rewrite G. destruct (negb (deleted s)); auto. }
+  destruct l; try discriminate; cbn [step]; auto; apply Hc.
+Qed.
+
+(* ------------------------------------------------------------------ *)
+(* B (continued). The unrestricted system DOES lose a wake-up          *)
+
+(* a consumer pulls from an empty subscription and goes to sleep *)
+Definition park_seq (c : nat) : list label := [LCons c; LCons c; LTurn; LCons c; LCons c].
+
+(* K = 1.  Consumers 0 and 1 sleep.  Post 1 wakes consumer 0 (the oldest).  It
+   runs: its poll returns Ready, it creates a fresh signal and wants to send its
+   Pull, but the mailbox is full (an Ack is queued): it waits at U1. *)
+Definition lost_prefix : list label :=
+  [LArrive Unary 1; LArrive Unary 1] ++ park_seq 0 ++ park_seq 1 ++
+  [LEnq (RPost 1); LTurn; LCons 0; LCons 0; LEnq (RAck 0)].
+
+Definition lost_before : state :=
+  mkSt false [1] 0 1 0 false false [RAck 0]
+       [mkCons Unary 1 (PU1 0 true) false 0; mkCons Unary 1 (PParked NNone) false 0].
+
+(* ... there it is cancelled; the actor handles the Ack. *)
+Definition lost_after : state :=
+  mkSt false [1] 0 1 0 false false []
+       [mkCons Unary 1 PGone false 0; mkCons Unary 1 (PParked NNone) false 0].
+
+Theorem C06_refuted_cancel_owing :
+  run 1 init lost_prefix = Some lost_before /\
+  length (mailbox lost_before) = 1 /\                 (* the mailbox is full *)
+  bad_drop lost_before (LCancel 0) = true /\          (* exactly the excluded step *)
+  run 1 lost_before [LCancel 0; LTurn] = Some lost_after /\
+  reachable 1 lost_after /\
+  lost_wakeup lost_after /\                           (* a message, a sleeper, nothing pending *)
+  quiescent 1 lost_after /\                           (* and nothing will ever happen *)
+  get lost_after 1 = Some (mkCons Unary 1 (PParked NNone) false 0).
+Proof.
+  assert (R1 : run 1 init lost_prefix = Some lost_before) by (vm_compute; reflexivity).
+  assert (R2 : run 1 lost_before [LCancel 0; LTurn] = Some lost_after) by (vm_compute; reflexivity).
+  split; [exact R1|]. split; [reflexivity|]. split; [reflexivity|]. split; [exact R2|].
+  split; [eapply run_reachable; [|exact R2]; eapply run_reachable; [constructor|exact R1]|].
+  split; [|split; [apply quiescent_of_b; vm_compute; reflexivity|reflexivity]].
+  split; [reflexivity|]. split; [cbn; lia|]. split; [reflexivity|].
+  split; [exists 1, (mkCons Unary 1 (PParked NNone) false 0); split; reflexivity|].
+  split; [|intros r []].
+  intros [|[|c]] cs G; cbn in G; try (injection G as <-; cbn; auto; fail).
+  destruct c; discriminate.
+Qed.
+
+(* The same loss through the 300 s timer instead of a cancellation. *)
+Theorem C06_refuted_timeout_owing :
+  exists s, run 1 lost_before [LTimeout 0; LTurn] = Some s /\
+            bad_drop lost_before (LTimeout 0) = true /\
+            lost_wakeup s /\ quiescent 1 s.
+Proof.
+  exists (mkSt false [1] 0 1 0 false false []
+            [mkCons Unary 1 (PDone OEmpty) true 0; mkCons Unary 1 (PParked NNone) false 0]).
+  split; [vm_compute; reflexivity|]. split; [vm_compute; reflexivity|].
+  split; [|apply quiescent_of_b; vm_compute; reflexivity].
+  split; [reflexivity|]. split; [cbn; lia|]. split; [reflexivity|].
+  split; [exists 1, (mkCons Unary 1 (PParked NNone) false 0); split; reflexivity|].
+  split; [|intros r []].
+  intros [|[|c]] cs G; cbn in G; try (injection G as <-; cbn; auto; fail).
+  destruct c; discriminate.
+Qed.
+
+(* Had consumer 0 been cancelled one step earlier (woken, not yet run), the
+   notification would have been forwarded to consumer 1. *)
+Example cancel_woken_is_forwarded :
+  option_map (fun s => (phases s, waiters s))
+    (run 1 init ([LArrive Unary 1; LArrive Unary 1] ++ park_seq 0 ++ park_seq 1 ++
+                 [LEnq (RPost 1); LTurn; LCancel 0]))
+  = Some ([PGone; PParked NOne], []).
+Proof. vm_compute. reflexivity. Qed.
+
+(* ------------------------------------------------------------------ *)
+(* Concrete runs                                                       *)
+
+Definition obs (K : nat) (o : option state) :=
+  option_map (fun s => (permit s, waiters s, backlog s, phases s, quiescentb K s)) o.
+
+Definition two_parked : list label := [LArrive Unary 1; LArrive Unary 1] ++ park_seq 0 ++ park_seq 1.
+
+(* two parked consumers and a Post 1: only the oldest is woken ... *)
+Example post1_wakes_oldest :
+  obs 4 (run 4 init (two_parked ++ [LEnq (RPost 1); LTurn]))
+  = Some (false, [1], 1, [PParked NOne; PParked NNone], false).
+Proof. vm_compute. reflexivity. Qed.
+
+(* ... and served; the other one keeps sleeping, nothing is left. *)
+Example post1_serves_oldest :
+  obs 4 (run 4 init (two_parked ++ [LEnq (RPost 1); LTurn; LCons 0; LCons 0; LCons 0; LTurn; LCons 0]))
+  = Some (false, [1], 0, [PDone (OMessages 1); PParked NNone], true).
+Proof. vm_compute. reflexivity. Qed.
+
+(* Post 3, both pull with limit 1: the Pull turn of consumer 0 leaves a
+   non-empty backlog and notifies again, which wakes consumer 1; its Pull
+   leaves one message and sets the permit for whoever comes next. *)
+Example post3_chain :
+  obs 4 (run 4 init (two_parked ++
+     [LEnq (RPost 3); LTurn; LCons 0; LCons 0; LCons 0; LTurn; LCons 0;
+      LCons 1; LCons 1; LCons 1; LTurn; LCons 1]))
+  = Some (true, [], 1, [PDone (OMessages 1); PDone (OMessages 1)], true).
+Proof. vm_compute. reflexivity. Qed.
+
+(* check-then-park race: the Post lands between the consumer's empty reply and
+   its poll; notify_one finds no waiter and stores the permit ... *)
+Example race_permit_set :
+  obs 4 (run 4 init [LArrive Unary 1; LCons 0; LCons 0; LTurn; LCons 0; LEnq (RPost 1); LTurn])
+  = Some (true, [], 1, [PU3 0], false).
+Proof. vm_compute. reflexivity. Qed.
+
+(* ... the poll returns Ready, the consumer pulls again and is served. *)
+Example race_poll_ready :
+  obs 4 (run 4 init [LArrive Unary 1; LCons 0; LCons 0; LTurn; LCons 0; LEnq (RPost 1); LTurn;
+                     LCons 0; LCons 0; LCons 0; LTurn; LCons 0])
+  = Some (false, [], 0, [PDone (OMessages 1)], true).
+Proof. vm_compute. reflexivity. Qed.
+
+(* Delete with a parked stream and a parked unary Pull: both are woken. *)
+Definition two_parked_su : list label := [LArrive Stream 1; LArrive Unary 1] ++ park_seq 0 ++ park_seq 1.
+
+Example delete_wakes_all :
+  obs 4 (run 4 init (two_parked_su ++ [LEnq RDelete; LTurn]))
+  = Some (false, [], 0, [PParked NAll; PParked NAll], false).
+Proof. vm_compute. reflexivity. Qed.
+
+(* select! picks the deleted branch for both *)
+Example delete_notfound :
+  obs 4 (run 4 init (two_parked_su ++ [LEnq RDelete; LTurn; LDelExit 0; LDelExit 1; LExit]))
+  = Some (false, [], 0, [PDone ONotFound; PDone ONotFound], true).
+Proof. vm_compute. reflexivity. Qed.
+
+(* select! picks the messages branch for both: they pull again, the actor is
+   gone, the stream ends with NotFound and the unary Pull with an error. *)
+Example delete_closed :
+  obs 4 (run 4 init (two_parked_su ++
+     [LEnq RDelete; LTurn; LCons 0; LCons 0; LCons 0; LCons 1; LCons 1; LExit; LCons 0; LCons 1]))
+  = Some (false, [], 0, [PDone ONotFound; PDone OError], true).
+Proof. vm_compute. reflexivity. Qed.
+
+(* ------------------------------------------------------------------ *)
+
+Print Assumptions notify_wf.
+Print Assumptions actor_wf.
+Print Assumptions C06_no_lost_wakeup_exact.
+Print Assumptions C06_no_lost_wakeup.
+Print Assumptions C06_lost_wakeup_unreachable.
+Print Assumptions C06_refuted_cancel_owing.
+Print Assumptions C06_refuted_timeout_owing.
+Print Assumptions C06_cancel_parked_ok.
+Print Assumptions C06_cancel_woken_forwarded.
+Print Assumptions C06_quiescent.
+Print Assumptions C12_release.
+Print Assumptions C12_no_hang.
+Print Assumptions hang_bound_le.
+Print Assumptions C12_progress.
+Print Assumptions C15_empty_rule.
+Print Assumptions C15_outcomes.
+Print Assumptions C15_empty_reply_continues.
+Print Assumptions internal_terminates.
+Print Assumptions internal_run_bound.
